@@ -47,6 +47,7 @@ class Gen:
         self.blocks = {}       # oblig id -> dict(kind, src, line_lo, line_hi, fn, gen_lo, gen_hi)
         self.cur_block = None
         self.drops = set()
+        self.store = {}        # named contract texts for plugins
 
     # ---------------------------------------------------------------- sources
     def source(self, rel):
@@ -86,7 +87,7 @@ class Gen:
                 continue
             if any('cfg(test)' in norm(a) for c in it.ctx for a in c[2].attrs):
                 continue
-            if ctxsel is not None and not any(ctxsel in norm(h) for (_, h, _) in it.ctx):
+            if ctxsel is not None and not any((ctxsel[1:] == norm(self.clean(h))) if ctxsel.startswith('=') else (ctxsel in norm(h)) for (_, h, _) in it.ctx):
                 continue
             cands.append(it)
         if not cands:
@@ -150,6 +151,21 @@ class Gen:
                 i += 1
             elif d == 'endimpl':
                 self.emit('}', 'spec', 'specs/' + spec_rel, i + 1)
+                i += 1
+            elif d in ('armcontract', 'closurecontract'):
+                j = i + 1
+                txt = []
+                while j < len(lines) and lines[j].strip() != '//@end':
+                    l = lines[j]
+                    txt.append(l.strip()[3:] if l.strip().startswith('//@') else l)
+                    j += 1
+                self.store.setdefault(d, {})[parts[1]] = '\n'.join(txt)
+                i = j + 1
+            elif d == 'plugin':
+                import importlib
+                mod = importlib.import_module(parts[1])
+                pos, kw = self.kv(parts[2:])
+                mod.run(self, kw, None, 'specs/' + spec_rel, i + 1)
                 i += 1
             elif d in ('fn', 'arm', 'closure', 'loopbody'):
                 j = i + 1
@@ -418,6 +434,8 @@ class Gen:
         head, rest = self.named_sig(src, it, kw.get('ret', 'r'))
         in_trait = any(k == 'trait' or (k == 'impl' and re.search(r'\bfor\b(?!\s*<)', strip_generics(h))) for (k, h, _) in it.ctx)
         head = self.clean(head)
+        if 'implgen' in kw:
+            head = impl_to_generic(head, kw['implgen'])
         if not in_trait:
             head = 'pub ' + head
         self.emit(head, 'code', rel, it.line)
@@ -534,6 +552,35 @@ class Gen:
             f.write('\n'.join(self.out) + '\n')
         with open(path + '.map.json', 'w') as f:
             json.dump({'map': self.map, 'blocks': self.blocks}, f)
+
+
+def impl_to_generic(head, name):
+    """R6: the first argument-position `impl Bound` becomes a named type parameter (Rust's own desugaring),
+    so that contracts can mention the type."""
+    m = re.search(r':\s*impl\s+', head)
+    if not m:
+        raise LostAnchor('implgen: no `impl Trait` parameter in ' + head[:60])
+    i = m.end()
+    depth = 0
+    j = i
+    while j < len(head):
+        c = head[j]
+        if c in '<([':
+            depth += 1
+        elif c in '>)]':
+            if depth == 0:
+                break
+            depth -= 1
+        elif c == ',' and depth == 0:
+            break
+        j += 1
+    bound = head[i:j].strip()
+    head2 = head[:m.start()] + ': ' + name + head[j:]
+    fm = re.search(r'\bfn\s+\w+', head2)
+    k = fm.end()
+    if head2[k:k + 1] == '<':
+        return head2[:k + 1] + '%s: %s, ' % (name, bound) + head2[k + 1:]
+    return head2[:k] + '<%s: %s>' % (name, bound) + head2[k:]
 
 
 def strip_generics(h):
